@@ -488,21 +488,38 @@ func verif_inv_zeroes_1(b []byte, i int) bool { return 0 <= i && i <= len(b) }
 func verif_dec_zeroes_1(b []byte, i int) int  { return len(b) - i }
 func verif_frame_zeroes_1(b []byte) []byte    { return b }
 
-// VerifSpecOptionsSmall: at most 20 options of at most 32 bytes each (what the
-// library's own callers build); AppendOptions stages them in a 1024-byte buffer.
+// VerifSpecOptionsSmall: at most 20 options of at most 32 bytes each, except the client identifier
+// (option 61), which may have up to 255 bytes (what the library's own callers build: their own
+// few short options plus an identifier copied from a request). AppendOptions stages them in a
+// 1024-byte buffer: 20*34 + 223 = 903 bytes at most.
 func VerifSpecOptionsSmall(o DHCP4Options) bool {
-	return len(o) <= 20 && vMapAll(o, func(k DHCP4OptionCode, v []byte) bool { return len(v) <= 32 })
+	return len(o) <= 20 && vMapAll(o, func(k DHCP4OptionCode, v []byte) bool { return spec_option_small(k, v) })
+}
+
+func spec_option_small(k DHCP4OptionCode, v []byte) bool {
+	return len(v) <= 32 || (k == DHCP4OptionClientIdentifier && len(v) <= 255)
+}
+
+// spec_extra61: the room still to be reserved for a long client identifier.
+func spec_extra61(has bool) int {
+	if has {
+		return 223
+	}
+	return 0
 }
 
 // (loop ordinals follow the position of the loop head instructions: the range-over-map loop is 1)
 func verif_inv_DHCP4_AppendOptions_2(options DHCP4Options, pos int, buffer []byte, rangeindex int, order []byte) bool {
-	return -1 <= rangeindex && rangeindex < len(order) && 0 <= pos && pos <= 680 && len(options) <= 20 && pos+34*len(options) <= 680 && len(buffer) == 1024 &&
-		vMapAll(options, func(k DHCP4OptionCode, v []byte) bool { return len(v) <= 32 })
+	_, has := options[DHCP4OptionClientIdentifier]
+	return -1 <= rangeindex && rangeindex < len(order) && 0 <= pos && pos <= 903 && len(options) <= 20 && pos+34*len(options)+spec_extra61(has) <= 903 && len(buffer) == 1024 &&
+		vMapAll(options, func(k DHCP4OptionCode, v []byte) bool { return spec_option_small(k, v) })
 }
 
 func verif_inv_DHCP4_AppendOptions_1(options DHCP4Options, pos int, buffer []byte, rangecount int) bool {
-	return 0 <= pos && pos <= 680 && 0 <= rangecount && rangecount <= len(options) && len(options) <= 20 && pos+34*(len(options)-rangecount) <= 680 && len(buffer) == 1024 &&
-		vMapAll(options, func(k DHCP4OptionCode, v []byte) bool { return len(v) <= 32 })
+	_, has := options[DHCP4OptionClientIdentifier]
+	return 0 <= pos && pos <= 903 && 0 <= rangecount && rangecount <= len(options) && len(options) <= 20 &&
+		pos+34*(len(options)-rangecount)+spec_extra61(has && !vRangeSeen(DHCP4OptionClientIdentifier)) <= 903 && len(buffer) == 1024 &&
+		vMapAll(options, func(k DHCP4OptionCode, v []byte) bool { return spec_option_small(k, v) })
 }
 
 //verif:props C03 C07 C08
@@ -513,12 +530,12 @@ func verif_contract_DHCP4_AppendOptions(p DHCP4, options DHCP4Options, order []b
 	vModifiesBytes(order[:cap(order)]) // append(order, ...) writes into the caller's spare capacity
 	vModifiesMap(options)              // options copied in order are deleted from the map
 	n := p.AppendOptions(options, order)
-	vEnsures(0 <= n && n <= 680)
+	vEnsures(0 <= n && n <= 903)
 	return n
 }
 
 func verif_inv_EncodeDHCP4_1(p DHCP4, n int) bool {
-	return 240 <= n && n <= len(p) && n <= 921 && len(p) >= 300
+	return 240 <= n && n <= len(p) && n <= 1144 && len(p) >= 300
 }
 func verif_dec_EncodeDHCP4_1(n int) int        { return 300 - n }
 func verif_frame_EncodeDHCP4_1(p DHCP4) []byte { return p[240:] }
@@ -544,7 +561,7 @@ func verif_contract_EncodeDHCP4(b []byte, opcode DHCP4OpCode, mt DHCP4MessageTyp
 	r := EncodeDHCP4(b, opcode, mt, chaddr, ciaddr, yiaddr, xid, broadcast, options, order)
 	if r != nil {
 		// (stated first: the region and offset of the result are then known for what follows)
-		vEnsures(vSameRegion(r, b) && vOffset(r, b) == 0 && 300 <= len(r) && len(r) <= 921 && len(r) <= cap(b))
+		vEnsures(vSameRegion(r, b) && vOffset(r, b) == 0 && 300 <= len(r) && len(r) <= 1144 && len(r) <= cap(b))
 		vEnsures(r[0] == byte(opcode) && r[1] == 1 && r[3] == 0)
 		vEnsures(chaddr != nil || r[2] == 6)
 		vEnsures(r[236] == 99 && r[237] == 130 && r[238] == 83 && r[239] == 99)
@@ -560,7 +577,7 @@ func verif_contract_EncodeDHCP4(b []byte, opcode DHCP4OpCode, mt DHCP4MessageTyp
 	if cap(b) < 300 {
 		vEnsures(r == nil)
 	}
-	if cap(b) >= 922 {
+	if cap(b) >= 1145 {
 		vEnsures(r != nil) // room for every options set within VerifSpecOptionsSmall
 	}
 	return r
